@@ -118,6 +118,10 @@ def run_replay(binary, plan_lines, pid, tmpdir, timeout=600):
     return dict(kind='crash', rc=rc, cls=crash_class(rc, err), msg=crash_summary(err), err=err)
 
 def crash_summary(err):
+    m = re.search(r'ERROR: SimCrash: (signal-\d+)', err)
+    if m:
+        frames = [f.group(1) for f in re.finditer(r'#\d+ 0x[0-9a-f]+ in (\w+) /src/', err)][:4]
+        return 'crash (%s) in %s' % (m.group(1), ' <- '.join(frames) or '?')
     m = re.search(r'SUMMARY: (.*)', err)
     if m:
         return m.group(1).strip()[:300]
@@ -134,6 +138,8 @@ def crash_class(rc, err):
         kind = 'asan:' + m.group(1)
     elif 'runtime error:' in err:
         kind = 'ubsan'
+    elif 'ERROR: SimCrash: signal-' in err:
+        kind = 'signal:' + re.search(r'SimCrash: signal-(\d+)', err).group(1)
     elif rc < 0:
         kind = 'signal:%d' % (-rc)
     elif rc not in (0, 1, 2):
